@@ -178,7 +178,15 @@ def judge(case: dict) -> dict:
                     discs.append(Discrepancy.make("stub_unparsable", rel, v["name"], tags))
                     continue
                 if (a.doc, a.package, a.annotations, sorted(a.imports)) != (b.doc, b.package, b.annotations, sorted(b.imports)):
-                    discs.append(Discrepancy.make("header_changes_with_declaration_order", rel, f"imports {sorted(a.imports)} vs {sorted(b.imports)}", tags))
+                    # the re-export stub of a class with a forward list attribute imports the element class only when it
+                    # was resolved (the same open finding seen in the header): only then, and only for those names
+                    htags = list(tags)
+                    diff_names = {i[1] for i in set(a.imports) ^ set(b.imports)}
+                    fwd_here = [d for d in tmod["decls"] if d["name"] in fwd_classes and d["name"] in {m.python_name for m in a.members}]
+                    fwd_elems = {mem["ann"][1][1].split(":")[-1] for d in fwd_here for mem in d["members"] if mem["t"] == "attr" and mem["ann"] and mem["ann"][0] == "list" and mem["ann"][1][0] in {"cls", "enum"}}
+                    if (a.doc, a.package, a.annotations) == (b.doc, b.package, b.annotations) and diff_names and diff_names <= fwd_elems:
+                        htags.append("attr:list_of_class_defined_later")
+                    discs.append(Discrepancy.make("header_changes_with_declaration_order", rel, f"imports {sorted(a.imports)} vs {sorted(b.imports)}", htags))
                 ca = Counter(repr(norm_decl(d, False)) for d in a.members)
                 cb = Counter(repr(norm_decl(d, False)) for d in b.members)
                 if ca != cb:
